@@ -70,4 +70,10 @@ PROPS = {
             "assumptions": ["ICS-23 / IAVL and go-ethereum trie + RLP are abstract: a proof is described by what it genuinely proves; binding (no proof of a value that is not stored) and completeness (the honest proof verifies) of those libraries are hypotheses of the theorems, exercised by the stream against the real libraries with honest, other-key, other-root, truncated, re-ordered and absence proofs",
                             "keccak-256 abstract (slot derivation is injective modulo collisions)"],
             "explanation": "`tm_verify_iff`, `eth_verify_iff`, `bsc_verify_iff` + soundness / completeness corollaries over all contexts; correspondence: Verify* of real TM / ETH / BSC client states over real IAVL stores and real Merkle-Patricia account+storage tries, compared with the model's glue and with the independent oracle `stored under the protocol key in the recorded state, height and delay conditions met`."},
+    "C17": {"level": "proof", "lean_modules": ["Tibc.Props.C17"],
+            "streams": [{"name": "bsc", "test": "TestStreamBsc", "cases": 8, "ops": 60, "thorough_scale": 15}],
+            "assumptions": ["secp256k1 signature recovery is abstract: a header carries the recovered signer address (unforgeability not modelled)",
+                            "keccak / RLP header hashing abstract: hashes are labels, equal iff the headers are equal",
+                            "client Active and creator-supplied initial validator set / recent signers trusted (governance creates clients)"],
+            "explanation": "`bsc_accept_iff` (accept <-> direct child, member of the set, not among recent signers, difficulty by turn, gas bounds, epoch extra-data rules, structural checks), `bsc_accept_effect`, rotation theorems over header histories; correspondence: really sealed synthetic Parlia chains (1-21 validators, rotations, in/out-of-turn) with single-field corruptions against the real ClientKeeper.UpdateClient, client state diffed against the model; independent truth simulation as oracle."},
 }
